@@ -415,3 +415,39 @@ def rule_s6_clear(prog, rep, rid='S6'):
     if not ok:
         rep.violation(rid, f, f.line, 'slot-reset', 'clear() frees the chain nodes but leaves the slot pointing at them: every later '
                       'lookup in that slot walks freed memory')
+
+
+def rule_s7_fresh_cursor(prog, rep, sites, rid='S7'):
+    """The walk tells a fresh cursor from one in use by testing cursor fields.  A cursor that has delivered an element must never
+    look fresh, so the test has to involve a field that is non-zero after every delivery: the entry's name pointer (a key is
+    never NULL) - the stored hash can be 0 and the next link is NULL at the end of a chain."""
+    from .own import MUST_NONNULL
+    rep.rule(rid, 'the walk recognises a cursor in use by a field that is non-zero after every delivery (the name pointer): a '
+                  'hash of 0 or a NULL next link must not make a used cursor look fresh')
+    nonnull_fields = {k[1] for k in MUST_NONNULL if k[1] == 'name'} | {'name'}
+    for (unit, fname, pidx) in sites:
+        f = prog.func(fname, unit)
+        if f is None or f.body is None or pidx >= len(f.params):
+            continue
+        cur = f.params[pidx].get('name')
+        # the `if` that guards the resume-position assignment (an assignment whose right side reads a cursor field)
+        for x in walk(f.body):
+            if x.get('kind') != 'IfStmt':
+                continue
+            ch = children(x)
+            resumes = any(y.get('kind') == 'BinaryOperator' and y.get('opcode') == '=' and strip(children(y)[0]).get('kind') == 'DeclRefExpr'
+                          and any(z.get('kind') == 'MemberExpr' and z.get('isArrow') and canon(children(z)[0]) == cur for z in walk(children(y)[1]))
+                          for y in walk(ch[1]))
+            if not resumes:
+                continue
+            tested = {z.get('name') for z in walk(ch[0]) if z.get('kind') == 'MemberExpr' and z.get('isArrow') and canon(children(z)[0]) == cur}
+            if not tested:
+                continue
+            rep.instance(rid)
+            ok = bool(tested & nonnull_fields)
+            rep.oblige(rid, ok, {'function': fname, 'line': x.get('_line'), 'tested_cursor_fields': sorted(tested)})
+            if not ok:
+                rep.violation(rid, f, x.get('_line'), 'fresh-test:%s' % ','.join(sorted(tested)),
+                              'a cursor in use is recognised by %s->{%s} only: an entry whose fields are all zero there (hash 0, end of '
+                              'chain) makes the cursor look fresh and the walk starts over' % (cur, ', '.join(sorted(tested))))
+            break
